@@ -1,6 +1,9 @@
 #pragma once
 
 #include <yaclib/fault/detail/fiber/mutex.hpp>
+#ifdef YACLIB_VERIF
+#  include <yaclib/fault/detail/verif.hpp>
+#endif
 
 #include <condition_variable>
 
@@ -74,6 +77,9 @@ class ConditionVariable {
   WaitStatus WaitImpl(std::unique_lock<yaclib::detail::fiber::Mutex>& lock, const Timeout& timeout) {
     InjectFault();
     lock.unlock();
+#ifdef YACLIB_VERIF
+    verif::Event(verif::kOther, this, 0, 0, 0);
+#endif
     auto status = _queue.Wait(timeout);
     lock.lock();
     InjectFault();
